@@ -95,13 +95,27 @@ fn format_standard(value: f64) -> String {
     add_thousand_separators(&formatted)
 }
 
+/// floor(log10(abs_value)) for a positive finite value. Just below a power of ten `log10`
+/// rounds up to the whole number, which would count one digit too many, so the estimate is
+/// checked against the neighbouring powers of ten.
+fn decimal_exponent(abs_value: f64) -> i32 {
+    let estimate = abs_value.log10().floor() as i32;
+    if 10_f64.powi(estimate) > abs_value {
+        estimate - 1
+    } else if 10_f64.powi(estimate + 1) <= abs_value {
+        estimate + 1
+    } else {
+        estimate
+    }
+}
+
 /// Round a number to n significant figures
 fn round_to_significant_figures(value: f64, sig_figs: u32) -> f64 {
     if value == 0.0 {
         return 0.0;
     }
 
-    let magnitude = value.abs().log10().floor() as i32;
+    let magnitude = decimal_exponent(value.abs());
     let scale = 10_f64.powi(sig_figs as i32 - 1 - magnitude);
     (value * scale).round() / scale
 }
@@ -111,10 +125,10 @@ fn format_float_significant(value: f64, max_sig_figs: usize) -> String {
     // Determine how many decimal places we need
     let abs_value = value.abs();
     let magnitude = if abs_value >= 1.0 {
-        abs_value.log10().floor() as i32 + 1
+        decimal_exponent(abs_value) + 1
     } else {
         // For numbers < 1, count leading zeros
-        -(abs_value.log10().floor() as i32)
+        -decimal_exponent(abs_value)
     };
 
     // Calculate decimal places needed for significant figures
